@@ -31,3 +31,5 @@ MANIFEST_ENTRY = {
             "and _to_original_view to place fixed indices and view entries correctly.",
     "note": "Level exploration: numpy fancy-indexing semantics are the oracle. Known findings: all-integer (scalar) views of categorical selections. Proved helpers are reported as extra keys.",
 }
+MANIFEST_ENTRY['text'] += (" The IndexedData.indices setter is proved to rebuild the slice selection it answers histograms with, and the table of kept pixel attributes, from the new indices "
+                           "whichever position changed, to refuse tuples of another length or with moved kept positions leaving everything as it was, and to notify iff some index differs.")
